@@ -12,11 +12,11 @@ def gens(tier):
 
 
 def check_c09(pid, tier, replay):
-    g = gens(tier) + [("endpoint/StreamGen", "endpoint/StreamGen%s.cfg" % ("_deep" if tier == "thorough" else ""))]
+    g = gens(tier) + [("endpoint/StreamGen", "endpoint/StreamGen%s.cfg" % ("_deep" if tier == "thorough" else ""))] + endpoint.mix_gens(pid, tier)
     endpoint.run(pid, tier, replay, ("C09_",), [("endpoint/Credit", "endpoint/Credit.cfg")], g, RULE +
-                 "; plus streams to Auto(n) receivers disposing in batches of b (accept_all / single accepts / auto-accept) for every n, b of StreamGen.tla")
+                 "; plus streams to Auto(n) receivers disposing in batches of b (accept_all / single accepts / auto-accept) for every n, b of StreamGen.tla" + endpoint.MIX_RULE)
 
 
 def check_c10(pid, tier, replay):
-    endpoint.run(pid, tier, replay, ("C10_",), [("endpoint/Reasm", None)], gens(tier) + [("endpoint/FragGen", "endpoint/FragGen%s.cfg" % ("_deep" if tier == "thorough" else ""))], RULE +
-                 "; plus every split offset of an encoded five-section message into 2 frames and a grid of 3-frame splits (FragGen.tla)")
+    endpoint.run(pid, tier, replay, ("C10_",), [("endpoint/Reasm", None)], gens(tier) + [("endpoint/FragGen", "endpoint/FragGen%s.cfg" % ("_deep" if tier == "thorough" else ""))] + endpoint.mix_gens(pid, tier), RULE +
+                 "; plus every split offset of an encoded five-section message into 2 frames and a grid of 3-frame splits (FragGen.tla)" + endpoint.MIX_RULE)
